@@ -243,6 +243,8 @@ type UnitResult struct {
 	Imprecise map[string]int
 	SpecErrs  []string
 	Detached  []string
+	RetPC     string // path condition of reaching a return (for the vacuity guard)
+	Vacuous   string // non-empty: the assumptions at the return are contradictory (solver name)
 	HasCon    bool
 	Seconds   float64
 	engine    *Engine
@@ -356,7 +358,7 @@ func (w *World) verifyUnit(fn *ssa.Function, defaultSafety []string) *UnitResult
 			}
 		}
 	}
-	res := &UnitResult{Fn: fn, Key: funcKey(fn), Pkg: w.pkgOf(fn).Pkg.Name(), Detached: e.detached, Obs: e.obs, Unsupp: e.unsupp, Unmod: e.unmod, Inlined: e.inlined,
+	res := &UnitResult{Fn: fn, Key: funcKey(fn), Pkg: w.pkgOf(fn).Pkg.Name(), Detached: e.detached, RetPC: rpc, Obs: e.obs, Unsupp: e.unsupp, Unmod: e.unmod, Inlined: e.inlined,
 		Trusted: e.trusted, Imprecise: e.imprecise, SpecErrs: e.specErrs, HasCon: con != nil, engine: e}
 	// stable obligation names
 	seen := map[string]int{}
